@@ -101,6 +101,31 @@ def c19_spaces(job):
     return out
 
 
+@handler("c19_big")
+def c19_big(job):
+    """boxes with tens of thousands of rows and more: the whole space and seeded probes go back as arrays in an .npz"""
+    _quiet()
+    import jax
+    import jax.numpy as jnp
+    import numpy as np
+    from mdpax.utils.spaces import create_range_space
+    out = []
+    for k, (mins, maxs) in enumerate(job["cases"]):
+        try:
+            space, index_fn = create_range_space(jnp.array(mins), jnp.array(maxs))
+            rs = np.random.RandomState(int(job.get("seed", 0)) + k)
+            lo, hi = np.array(mins), np.array(maxs)
+            probes = np.stack([rs.randint(l - 2, h + 3, size=2048) for l, h in zip(lo, hi)], axis=1).astype(np.int32)
+            idx = np.asarray(jax.vmap(index_fn)(jnp.array(probes)))
+            own = np.asarray(jax.vmap(index_fn)(space))
+            f = f"{job['out']}_{k}.npz"
+            np.savez(f, space=np.asarray(space), probes=probes, idx=idx, own=own)
+            out.append({"file": f, "dtype": str(space.dtype)})
+        except Exception as e:  # noqa: BLE001
+            out.append({"error": type(e).__name__, "message": str(e)[:500]})
+    return out
+
+
 # ----------------------------------------------------------------------------- solver runs
 def _fx(arr):
     """exact rationals of a float array, as strings"""
